@@ -129,7 +129,7 @@ Section Comp2.
         * exists L2. split; auto. chain Hpre. chain IH1. chain IH2. vstep1 Es. fin.
         * hstar Hpre. hstar IH1. hstar IH2. vstop1 Es.
         * hstar Hpre. hstar IH1. hstar IH2. vstop1 Es.
-      + rewrite andb_true_r in Hok.
+      + apply andb_true_iff in Hok. destruct Hok as [Hok _].
         destruct (Hacc eq_refl) as [a ->].
         change (gen_cls_from p ls cs false body bodyv cq None [])
           with ([DUP] ++ gen_e p ls cs body ++ [APPEND]) in *.
@@ -148,7 +148,7 @@ Section Comp2.
     - (* for clause *)
       assert (Hsome : forall v0 s1 L1 q,
                 ok_target2 lo ls U (map snd cs) t = true -> forallb (fun x => str_in x V) (target_names t) = true ->
-                ok_cls lo ls V (map snd cs) curly body bodyv (rm (target_names t) U) r = true ->
+                ok_cls lo ls V (map snd cs) body bodyv (rm (target_names t) U) r = true ->
                 R lo ls cs U ρ L1 ->
                 pcode_at C q (loop_tail (gen_ct p ls cs t ps) (gen_cls p ls cs curly body bodyv cq r) ps) brk cont ->
                 sim p (comp p (S n) stk ρ (Some v0) (CFor t e ps :: r) acc curly body bodyv cq s1)
